@@ -31,7 +31,7 @@ from ..engine.report import AnalysisError, Run
 from ..engine.resolver import ClassInfo, FuncInfo, Program, body_walk
 from ..engine.normalize import positional
 from ..engine.util import canon, method_call, u
-from ._c06_util import (Flow, HelperCalls, cmp_eval, expr_guards, first_run_sync_name, indent_of, inline_all, lifted, names_eq, private_callee, pruned, seg, spliced, src_patch,
+from ._c06_util import (Flow, HelperCalls, cmp_eval, expr_guards, first_run_sync_name, indent_of, inline_all, lifted, rereport, names_eq, private_callee, pruned, seg, spliced, src_patch,
                         select_ifexp, stmt_patch, transitive_helpers, tri, truth_atom)
 from .c13 import _self_fields, step_classes, step_interp
 
@@ -1448,6 +1448,30 @@ def check_tok(run: Run, prog: Program) -> None:
               "reading starts at position 0", "the iterator does not start at the first character", node=init.node, file=init.file)
 
 
+def check_shared(run: Run, prog: Program) -> None:
+    """Clauses of C05 that sibling checkers decide, run there and reported here.
+
+    C05.NAN    a sub-expression without arithmetic value (division by a zero sub-expression -> NaN) has to stay
+               undefined through every enclosing operator, otherwise a number is emitted for an expression that has
+               none: C13's NaN-propagation / zero-divisor rules over every step.
+    C05.ALIGN  the value is computed from the inputs of the timestamp it is stamped with: besides the first-run
+               synchronisation itself (above), nothing is fetched once evaluation has begun and the emitted
+               timestamp is the synchronised one (C06.TS)."""
+    from . import c06, c13
+
+    s13 = Run("C13", "quick", 0)
+    c13.check_steps(s13, prog, c13.engine_drops_round(s13, prog, rule=None))
+    rereport(run, s13, ("C13.NAN", "C13.UNDEF"), "C05.NAN")
+    s06 = Run("C06", "quick", 0)
+    c06.bind_sync(prog)
+    try:
+        c06.check_ts(s06, prog, c06.Round(prog))
+    except c06.RoundBroken as exc:
+        raw = prog.func(f"{EVAL}:FormulaEvaluator.apply")
+        run.violation("C05.ALIGN", raw.qual, exc.what, exc.message, node=raw.node, file=raw.file)
+    rereport(run, s06, ("C06.TS",), "C05.ALIGN")
+
+
 def check_ho_build(run: Run, prog: Program) -> None:
     """C05.TAB (composition API): build() replays the recorded token stream into FormulaBuilder(s) -- decided per
     token kind on the paths of the replay loop: a COMPONENT_METRIC token reaches push_metric (only), an OPER token
@@ -1787,10 +1811,19 @@ def build_controls(prog: Program) -> list[tuple[str, str, str, str, str]]:
     for st_ in (x for x in ast.walk(hb.node) if isinstance(x, ast.Expr) and isinstance(x.value, ast.Call) and method_call(x.value, None, "push_oper")):
         add("composition drops operator tokens", ENGINE, stmt_patch(hb, st_, lambda t: f"{indent_of(t)}pass\n"), "C05.TAB")
         break
+    # shared clauses: a control of the sibling, expected under this property's rule id
+    from . import c06 as _c06
+    from . import c13 as _c13
+    for nm, md, o_, n_, _r in _c13.build_controls(prog):
+        if nm == "Consumption with swapped max operands":
+            out.append((nm, md, o_, n_, "C05.NAN"))
+    for nm, md, o_, n_, _r in _c06.build_controls(prog):
+        if nm == "steps before synchronisation":
+            out.append((nm, md, o_, n_, "C05.ALIGN"))
     # ALIGN: drain loops of the first-run synchronisation interchanged
     add("drain loops interchanged", EVAL, interchange_patch(prog), "C05.ALIGN")
     if len(out) < 6:
-        raise AnalysisError(f"C05: only {len(out)} of 13 seeded controls could be derived from the source ({[o[0] for o in out]})")
+        raise AnalysisError(f"C05: only {len(out)} of 15 seeded controls could be derived from the source ({[o[0] for o in out]})")
     return out
 
 
@@ -1803,6 +1836,7 @@ def run_rules(run: Run, prog: Program) -> None:
     check_tok(run, prog)
     check_digits(run, prog)
     check_ho_build(run, prog)
+    check_shared(run, prog)
     from .c06 import check_sync as first_run_sync
 
     first_run_sync(run, prog, rule="C05.ALIGN")
@@ -1817,6 +1851,8 @@ def check(run: Run, prog: Program, tier: str) -> str:
     run.rule("C05.PAREN", "HO builder: X -> ( X ) op Y with Y atom or ( Y' ), for several shapes of Y'")
     run.rule("C05.EVAL", "all steps applied in order on a fresh stack; one residual; LIFO finalize; shared fetcher")
     run.rule("C05.TOK", "the tokenizer's character iterator reads string[pos] only while pos < len(that same string), from 0")
+    run.rule("C05.NAN", "an undefined sub-expression (NaN, e.g. from a zero divisor) stays undefined through every enclosing step "
+             "(shared with C13.NAN / C13.UNDEF)")
     run.rule("C05.ALIGN", "the values combined by one evaluation belong to one timestamp: the first-run synchronisation advances "
              "every stream of every lagging group (shared with C06.SYNC)")
     run_rules(run, prog)
@@ -1830,7 +1866,8 @@ def check(run: Run, prog: Program, tier: str) -> str:
     run.floor("C05.PAREN", 40)
     run.floor("C05.EVAL", 6)
     run.floor("C05.TOK", 6)
-    run.floor("C05.ALIGN", 4)
+    run.floor("C05.ALIGN", 8)
+    run.floor("C05.NAN", 12)
     from ..engine.controls import run_controls
 
     run_controls(run, [] if run.violations else build_controls(prog), run_rules, tier)
